@@ -1,4 +1,4 @@
-from sklearn.metrics.pairwise import PAIRWISE_KERNEL_FUNCTIONS, PAIRWISE_DISTANCE_FUNCTIONS
+from sklearn.metrics.pairwise import PAIRWISE_KERNEL_FUNCTIONS, PAIRED_DISTANCES
 from sklearn.utils._param_validation import StrOptions
 from sklearn.utils.extmath import softmax
 
@@ -301,7 +301,7 @@ class CategoricalWasserstein(CategoricalModel):
     """
     _parameter_constraints: dict = {
         **CategoricalModel._parameter_constraints,
-        "metric": [StrOptions(set(list(PAIRWISE_DISTANCE_FUNCTIONS) + ["precomputed"])), callable],
+        "metric": [StrOptions(set(list(PAIRED_DISTANCES) + ["precomputed"])), callable],
         "metric_params": [dict, None],
         "ovo": [bool],
     }
